@@ -52,9 +52,9 @@ func wsSeg(r *rng.R) string {
 	case 1:
 		s += "-" + string(wsSegChars[r.Intn(26)])
 	case 2:
-		s += "é"
+		s += "\u00e9"
 	case 3:
-		s = "à" + s // C3 A0: ends in the byte of NBSP, but is a letter
+		s = "\u00e0" + s // C3 A0: ends in the byte of NBSP, but is a letter
 	}
 	return s
 }
@@ -288,7 +288,7 @@ func genRecipeWS(r *rng.R) Input {
 		}
 		items = append(items, wsLine(r, "atoms", b.String()))
 	case "compress":
-		items = append(items, wsLine(r, "compress", r.Pick([]string{"gz  ip", "x\tz", "none  none", "gzip ", "b zip2", "gzip \v gzip", "xz"})))
+		items = append(items, wsLine(r, "compress", r.Pick([]string{"gz  ip", "x\tz", "none  none", "gz\u00a0ip", "b zip2", "gzip \v gzip", "xz"})))
 	case "addfiles":
 		items = append(items, wsLine(r, "addfiles", "@W/"+wsRelPath(r)))
 	}
